@@ -27,9 +27,12 @@ fn diag_identity(doc: &Document, d: &Value, loose: bool) -> Option<(String, usiz
     Some((id, s, e))
 }
 
-fn lints_event(text: &str, diags_all: &Value, diags_vis: &Value) -> Value {
+fn lints_event(text: &str, diags_all: &Value, diags_vis: &Value, code: bool) -> Value {
     let dict = FstDictionary::curated();
-    let doc = Document::new(text, &PlainEnglish, &dict);
+    let doc = if code {
+        let p = harper_comments::CommentParser::new_from_language_id("rust", Default::default()).unwrap();
+        Document::new(text, &p, &dict)
+    } else { Document::new(text, &PlainEnglish, &dict) };
     let key = |d: &Value| format!("{}|{}|{}", d["range"]["start"]["character"], d["range"]["end"]["character"], d["message"].as_str().unwrap_or(""));
     let all: Vec<Value> = diags_all.as_array().unwrap().iter().filter_map(|d| {
         let (pid, s, e) = diag_identity(&doc, d, false)?;
@@ -51,25 +54,29 @@ pub fn ls_ignore(a: &Args) {
             std::fs::create_dir_all(&dir).unwrap();
             let mut ls = Ls::new(&dir);
             ls.initialize();
-            let uri = "untitled:Untitled-1";
-            let mut text = format!("{} {}", rng.pick(&corpus[..]), ["teh cat saw teh dog.", "an test of an test.", "He said \"an test\" today."][rng.below(3)]);
+            // every third session is a source file: the flagged prose sits in a comment on the first line, and the far
+            // edit changes the set of identifiers of the file
+            let code = n % 3 == 2;
+            let (uri, lang) = if code { ("untitled:Untitled-2.rs", "rust") } else { ("untitled:Untitled-1", "plaintext") };
+            let prose = format!("{} {}", rng.pick(&corpus[..]), ["teh cat saw teh dog.", "an test of an test.", "He said \"an test\" today."][rng.below(3)]);
+            let mut text = if code { format!("// {prose}\nfn helper_one(arg_zq: u8) -> u8 {{ arg_zq }}\n") } else { prose };
             out.emit(&json!({"ev": "Reset", "text": text}));
-            let h = ls.did_open(uri, "plaintext", &text);
+            let h = ls.did_open(uri, lang, &text);
             ls.run_to_completion(h, Duration::from_secs(20));
             // an un-ignoring reference: a second server that never ignores anything
             let mut reference = Ls::new(&dir.join("ref"));
             reference.initialize();
-            let hr = reference.did_open(uri, "plaintext", &text);
+            let hr = reference.did_open(uri, lang, &text);
             reference.run_to_completion(hr, Duration::from_secs(20));
             for step in 0..3 {
                 let vis = ls.last_publish(uri).cloned().unwrap_or(json!([]));
                 let all = reference.last_publish(uri).cloned().unwrap_or(json!([]));
-                out.emit(&lints_event(&text, &all, &vis));
+                out.emit(&lints_event(&text, &all, &vis, code));
                 let va = vis.as_array().cloned().unwrap_or_default();
                 if va.is_empty() { break; }
                 if step == 1 {
                     // far edit: append a paragraph
-                    text = format!("{text}\n\nMore words follow here.");
+                    text = if code { format!("{text}fn helper_two(other_zq: u8) -> u8 {{ other_zq + 1 }}\n") } else { format!("{text}\n\nMore words follow here.") };
                     out.emit(&json!({"ev": "Edit", "kind": "append"}));
                     let v = 10 + step as i64;
                     let h = ls.did_change(uri, v, &text); ls.run_to_completion(h, Duration::from_secs(20));
@@ -80,7 +87,10 @@ pub fn ls_ignore(a: &Args) {
                 let d = &va[rng.below(va.len())];
                 let res = ls.call("textDocument/codeAction", json!({"textDocument": {"uri": uri}, "range": d["range"], "context": {"diagnostics": []}}), true);
                 let dict = FstDictionary::curated();
-                let doc = Document::new(&text, &PlainEnglish, &dict);
+                let doc = if code {
+                    let p = harper_comments::CommentParser::new_from_language_id("rust", Default::default()).unwrap();
+                    Document::new(&text, &p, &dict)
+                } else { Document::new(&text, &PlainEnglish, &dict) };
                 let mut done = false;
                 if let Some(acts) = res.as_ref().and_then(|r| r.as_array()) {
                     for act in acts {
